@@ -33,6 +33,8 @@ pub struct Engine<'a, L> {
     list_node: HashMap<usize, usize>,
     // Mark index of bnode as compound literals
     compound_literals: HashSet<usize>,
+    // The (first) graph in which each bnode was met as subject or object
+    bnode_graph: HashMap<Box<str>, Box<str>>,
 }
 
 impl<'a, L> Engine<'a, L> {
@@ -47,6 +49,7 @@ impl<'a, L> Engine<'a, L> {
             list_seeds: Vec::new(),
             list_node: HashMap::new(),
             compound_literals: HashSet::new(),
+            bnode_graph: HashMap::new(),
         }
     }
 
@@ -92,6 +95,19 @@ impl<'a, L> Engine<'a, L> {
                     self.compound_literals.insert(is);
                 }
             }
+            // A bnode used as a graph name, or in several graphs, must keep its identifier
+            // (compacting it into a @list would lose it): it has no *unique* parent.
+            if let Some(g) = q.g() {
+                if g.is_bnode() {
+                    self.unique_parent.insert(g_id.clone(), None);
+                }
+            }
+            if q.s().is_bnode() {
+                self.check_bnode_graph(q.s().as_id(), &g_id);
+            }
+            if q.o().is_bnode() {
+                self.check_bnode_graph(q.o().as_id(), &g_id);
+            }
             if q.o().is_bnode() {
                 let parent = (is, q.p().as_id());
                 self.unique_parent
@@ -107,6 +123,18 @@ impl<'a, L> Engine<'a, L> {
             }
             Ok(())
         })
+    }
+
+    fn check_bnode_graph(&mut self, bn_id: Box<str>, g_id: &str) {
+        match self.bnode_graph.get(&bn_id) {
+            None => {
+                self.bnode_graph.insert(bn_id, g_id.into());
+            }
+            Some(g) if g.as_ref() != g_id => {
+                self.unique_parent.insert(bn_id, None);
+            }
+            _ => {}
+        }
     }
 
     fn index<T: Into<Box<str>>, U: Into<Box<str>>>(&mut self, g_id: T, s_id: U) -> usize {
